@@ -977,6 +977,12 @@ impl<Writer: Write> Muxer<Writer> {
     /// Simple video encoding method.
     pub fn encode_video(&mut self, data: &[u8], duration_ms: u32) -> Result<(), MuxerError> {
         let pts = self.current_video_pts;
+        // An empty frame is a caller error (EmptyVideoFrame), not an internal invariant violation.
+        if data.is_empty() {
+            return Err(MuxerError::EmptyVideoFrame {
+                frame_index: self.video_frame_count,
+            });
+        }
         let is_keyframe = self.is_keyframe(data);
         self.write_video(pts, data, is_keyframe)?;
         self.current_video_pts += duration_ms as f64 / 1000.0;
